@@ -40,6 +40,15 @@ type spec struct {
 	Decoy     bool // a second topic with its own subscription and message
 	Batch     bool // a publisher hands all its messages to one Publish call
 	EmptyMeta bool // the published messages carry no metadata (subscribers that edit their copy then add the first keys)
+	EmptyUUID bool // the first message of the first publisher is published with the empty UUID (the Message doc allows it)
+}
+
+// uuid of message i of publisher p
+func (sp spec) uuid(p, i int) string {
+	if sp.EmptyUUID && p == 0 && i == 0 {
+		return ""
+	}
+	return fmt.Sprintf("p%dm%d", p, i)
 }
 
 func (sp spec) name() string {
@@ -55,6 +64,9 @@ func (sp spec) name() string {
 	}
 	if sp.EmptyMeta {
 		n += "/no-metadata"
+	}
+	if sp.EmptyUUID {
+		n += "/empty-uuid"
 	}
 	return n
 }
@@ -152,6 +164,7 @@ func body(sp spec) {
 	for p := 0; p < sp.Pubs; p++ {
 		for i := 0; i < sp.Msgs; i++ {
 			m := hx.Msg(fmt.Sprintf("p%dm%d", p, i))
+			m.UUID = sp.uuid(p, i)
 			if sp.EmptyMeta {
 				m = message.NewMessage(m.UUID, m.Payload) // no metadata at all
 			}
@@ -190,7 +203,7 @@ func body(sp spec) {
 				var us []string
 				var ms []*message.Message
 				for i := 0; i < sp.Msgs; i++ {
-					u := fmt.Sprintf("p%dm%d", p, i)
+					u := sp.uuid(p, i)
 					us, ms = append(us, u), append(ms, origs[u])
 				}
 				if anyConc {
@@ -211,7 +224,7 @@ func body(sp spec) {
 				return
 			}
 			for i := 0; i < sp.Msgs; i++ {
-				u := fmt.Sprintf("p%dm%d", p, i)
+				u := sp.uuid(p, i)
 				if anyConc {
 					vs.Observe("pubstart %s", u)
 					pubStart[u] = vs.ObsCount()
@@ -384,6 +397,8 @@ func init() {
 		add(reg.Quick, 20, spec{Cfg: cfg, Pubs: 1, Msgs: 1, Subs: []subSpec{{Nacks: 0}}, C: 2, Decoy: true}, -1)
 		add(reg.Quick, 2, spec{Cfg: cfg, Pubs: 1, Msgs: 1, EmptyMeta: true, Subs: []subSpec{{Nacks: 1, Mutate: true}}, C: -1}, -1)
 		add(reg.Quick, 10, spec{Cfg: cfg, Pubs: 1, Msgs: 1, EmptyMeta: true, Subs: []subSpec{{Nacks: 0, Mutate: true}, {Nacks: 1, Mutate: true}}, C: -1}, -1)
+		add(reg.Quick, 3, spec{Cfg: cfg, Pubs: 1, Msgs: 2, EmptyUUID: true, Subs: []subSpec{{Nacks: 1, Mutate: true}}, C: -1}, -1)
+		add(reg.Quick, 3, spec{Cfg: cfg, Pubs: 1, Msgs: 1, EmptyUUID: true, Subs: []subSpec{{Nacks: 0}, {Concurrent: true}}, C: 1}, 2)
 		cb := 1 // two preemptions only where the blocking publisher keeps the space small
 		if cfg.Blocking {
 			cb = 2
